@@ -711,3 +711,108 @@ func TestC02(t *testing.T) { rapid.Check(t, func(t *rapid.T) { propC01C02(t, "C0
 func TestC02_SameName(t *testing.T) {
 	rapid.Check(t, func(t *rapid.T) { propC01C02Opts(t, "C02", false, true) })
 }
+
+// TestC16_Manager (property C16, manager level): the generated catalogs have the same number of physical channels on both
+// sides, so the assignment of source channels to downstream channels made by the manager (direct assignment, waiting handlers,
+// forwarding) must be one-to-one and must never change. It is read off the tick-only packs, which always leave on the channel
+// the stream's handler is bound to (data packs may be forwarded to the channel hosting their shard).
+func TestC16_Manager(t *testing.T) {
+	rapid.Check(t, func(t *rapid.T) {
+		sc := stats.New("C16")
+		w := newWorld(worldOpts{ttIntervalMs: 1, bufSize: rapid.SampledFrom([]int{1, 4, 16}).Draw(t, "bufSize")})
+		defer w.close()
+		// contended catalogs: 2..3 channels per side, 3..5 single-shard collections whose downstream placement prefers
+		// channel 0, so that source channels are offered with a channel that is already taken (they wait) and offered again
+		gi := &genInfo{posKinds: map[string]bool{}}
+		n := rapid.IntRange(2, 3).Draw(t, "pchannels")
+		gi.n = n
+		nc := rapid.IntRange(3, 5).Draw(t, "collections")
+		tag := int64(0)
+		// model of the direct assignments in start order (collections are started in index order)
+		assigned := map[int]int{} // source channel -> downstream channel
+		used := map[int]bool{}    // downstream channels taken by a direct assignment
+		excludedStaleForward := 0
+		for ci := 0; ci < nc; ci++ {
+			src := rapid.IntRange(0, n-1).Draw(t, "src")
+			tgt := 0
+			if rapid.IntRange(0, 9).Draw(t, "tgtZero") >= 6 {
+				tgt = rapid.IntRange(0, n-1).Draw(t, "tgt")
+			}
+			if cur, ok := assigned[src]; ok && cur != tgt && !used[tgt] && known("F-C16-stale-forward") {
+				// F-C16-stale-forward (known finding): offering a source channel that already has a handler together with a
+				// downstream channel nobody holds yet reserves that channel for a waiting handler; the reservation is not seen by
+				// a later direct assignment of the same channel. While the finding is listed such offers are not generated.
+				tgt = cur
+				excludedStaleForward++
+			}
+			if _, ok := assigned[src]; !ok && !used[tgt] {
+				assigned[src], used[tgt] = tgt, true
+			}
+			gi.aligned = gi.aligned && src == tgt
+			c := w.addCollection(ci, "default", []int{src}, []int{tgt}, []*partDef{{name: "_default"}}, false)
+			st := c.streams[0]
+			st.posKd = "pchannel"
+			cur := ts(1700000000000, 0)
+			for pi := 0; pi < rapid.IntRange(1, 3).Draw(t, "packs"); pi++ {
+				p := &packDef{stream: st, idx: pi, id: []byte(fmt.Sprintf("c%ds0p%d", ci, pi)), begin: cur}
+				mt := cur
+				if rapid.Bool().Draw(t, "withRow") {
+					mt++
+					tag++
+					p.msgs = append(p.msgs, &msgDef{kind: "insert", ts: mt, tag: tag, rows: 1, part: c.parts[0], pack: p})
+				}
+				cur = mt + 2<<18
+				p.end = cur
+				st.script = append(st.script, p)
+			}
+		}
+		drive(t, w, gi)
+		if busy, ok := w.quiesce(30 * time.Second); !ok {
+			t.Fatalf("VERIF-TROUBLE quiescence not reached: %s", busy)
+		}
+		// one more empty pack per live stream after the tick period has elapsed: it is emitted as a tick-only pack
+		time.Sleep(3 * time.Millisecond)
+		for _, c := range w.colls {
+			st := c.streams[0]
+			if !c.started || !w.disp.Registered(st.srcV) {
+				continue
+			}
+			last := ts(1700000100000, 0)
+			st.script = append(st.script[:st.next], &packDef{stream: st, idx: 99, id: []byte(fmt.Sprintf("c%ds0p99", c.idx)), begin: last, end: last + 1<<18})
+			w.feedNext(st)
+			time.Sleep(2 * time.Millisecond)
+		}
+		if busy, ok := w.quiesce(30 * time.Second); !ok {
+			t.Fatalf("VERIF-TROUBLE quiescence not reached: %s", busy)
+		}
+		out, _ := w.snapshot()
+		bound := map[string]string{}  // source pchannel -> downstream channel of its handler
+		served := map[string]string{} // downstream channel -> source pchannel
+		for _, o := range out {
+			data := false
+			for _, m := range o.rm.MsgPack.Msgs {
+				data = data || m.Type() != commonpb.MsgType_TimeTick
+			}
+			src := o.rm.PChannelName
+			if data || src == "" {
+				continue
+			}
+			if prev, ok := bound[src]; ok && prev != o.channel {
+				t.Fatalf("the assignment of source channel %s changed from %s to %s\n%s", src, prev, o.channel, w.dump(out))
+			}
+			bound[src] = o.channel
+			if other, ok := served[o.channel]; ok && other != src {
+				t.Fatalf("downstream channel %s serves two source channels %s and %s although both sides have %d channels (one-to-one expected)\n%s", o.channel, other, src, gi.n, w.dump(out))
+			}
+			served[o.channel] = src
+		}
+		sc.ClassIf(gi.unregistered > 0, "stream-waiting-for-free-channel")
+		sc.ClassIf(len(bound) >= 2, "two-or-more-source-channels-bound")
+		sc.Count("source_channels_bound", len(bound))
+		sc.Count("offers_excluded_by_F-C16-stale-forward", excludedStaleForward)
+		sc.NonTrivial(gi.unregistered > 0 && len(bound) >= 1)
+		sc.Fingerprint(map[string]any{"catalog": w.describe(), "actions": w.hist})
+		sc.Sample(map[string]any{"catalog": w.describe(), "assignment": bound})
+		sc.Done()
+	})
+}
